@@ -15,14 +15,18 @@ NOTE_COMMON = ("Trusted: Lean 4.33 kernel; axioms propext/Classical.choice/Quot.
 CLAIMS = {
     "C07": dict(
         category="proof", design_ref="§7 C07, Appendix A.4",
-        technique="Lean 4 refinement theorem toMs_sem_partial: the model of to_ms refines an independent backwards-time ms interpreter (sizes, migration step function, lineage movements, population numbering) + differential correspondence and the interpreter run on the real output",
+        technique="Lean 4 refinement theorem toMs_sem (no hypothesis beyond validity and ms-expressibility): the model of to_ms refines an independent backwards-time ms interpreter (sizes, migration step function, lineage movements, population numbering) + differential correspondence and the interpreter run on the real output",
         text=("Kernel-checked theorems toMs_rejects / toMs_accepts (exactly the graphs with a linear epoch or a multi-source pulse raise), toMs_structure (-I header, deme order = population "
               "order, times / 4N0, stable order), toMs_sizes with en_followed_by_eg (per-population size and growth segments; the repaired sawtooth defect F3), toMs_migrations (for every "
               "ordered pair and every time the rate in force is 4N0 x the graph's), toMs_numbering (the static numbering of -es/-ej pairs equals ms's dynamic 'current count + 1'), "
-              "toMs_sem_parts and toMs_sem_partial: for EVERY valid ms-expressible graph whose ancestry proportions sum to exactly 1, every N0 > 0 and every well-formed sample list, the "
-              "emitted command interpreted by the independent interpreter (Spec/C07Sem.msSemG) denotes the graph's demography (sizes, migration rates, movement matrices on each deme's "
-              "lifetime, zero inflow outside it). toMs_sem_counterexample: with proportions summing to 1+2^-40 (accepted by validation) to_ms renormalises, so movements differ by ~1e-12 — "
-              "the hypothesis ExactProportions is necessary (an interpretation matter, DESIGN §9). Model tied to to_ms by exact comparison of the emitted token list (growth rates symbolic, "
+              "toMs_sem_parts and toMs_sem: for EVERY valid ms-expressible graph, every N0 > 0 and every well-formed sample list, the "
+              "emitted command interpreted by the independent interpreter (Spec/C07Sem.msSemG) denotes the demography (sizes, migration rates, movement matrices on each deme's "
+              "lifetime, zero inflow outside it) of normalizeProportions g — the graph with each deme's ancestry proportions divided by their sum, which is what to_ms's "
+              "p_k / sum(p[k:]) computes (toMs_normalizeProportions: the command is the same for g and its normalisation; normalizeProportions_exact: nothing changes when the "
+              "proportions sum to exactly 1, giving toMs_sem_partial; normalizeProportions_close / _tolerance: each proportion moves by at most a relative 1e-9/(1-1e-9), the "
+              "tolerance validation itself allows). toMs_sem_counterexample(_single): against the un-normalised graph the movements differ by ~1e-12 when the proportions sum to "
+              "1+2^-40, or a single proportion is 1-2^-40 — "
+              "so the normalisation in the statement is necessary (an interpretation matter, DESIGN §9). Model tied to to_ms by exact comparison of the emitted token list (growth rates symbolic, "
               "compared at 1e-9); the interpreter is run on the REAL output and compared with the graph's semantics."),
         note=NOTE_COMMON + " math.log/exp are symbolic in the Model (Sz, Growth); number printing is below the Model. The ms manual is not available offline: the interpreter encodes the semantics described in DESIGN §7/§9."),
     "C08": dict(
